@@ -29,7 +29,7 @@ m = dict(version=1, setup_cmd="./setup.sh",
                     source_commits=[], add_only=True),
          engines=[dict(name=e, path=f"vlib/{e}.py", serves_properties=ps, kind_free_text="TLA+ spec in spec/, TLC, python replay/trace harness") for e, ps in engines.items()],
          checks=checks, not_applicable=na,
-         notes="All checks: exit 0 held / 1 violation / 2 machinery failure. Known findings: known_findings.json. fix: commits in /repo are listed in DESIGN.md 9.5 (30, the latest f2ab05b) and as 'fixed' entries of known_findings.json.")
+         notes="All checks: exit 0 held / 1 violation / 2 machinery failure. Known findings: known_findings.json. fix: commits in /repo are listed in DESIGN.md 9.5 (31, the latest 1f25c94) and as 'fixed' entries of known_findings.json.")
 json.dump(m, open(os.path.join(root, "MANIFEST.json"), "w"), indent=1)
 import subprocess
 r = subprocess.run(["python3-vt", "-c", "import json,jsonschema;jsonschema.validate(json.load(open('MANIFEST.json')),json.load(open('/root/.vp/MANIFEST.schema.json')));print('MANIFEST valid', len(json.load(open('MANIFEST.json'))['checks']), 'checks')"], cwd=root)
